@@ -234,7 +234,7 @@ class Agent:
         msg_id = ov.get("msg_id", m["msg_id"] if m else 0)
         user_name = ov.get("user", usm_in["user"])
         engine_id = ov.get("engine_id", self.engine_id)
-        ctx_engine = ov.get("ctx_engine_id", engine_id)
+        ctx_engine = ov.get("ctx_engine_id", engine_id if getattr(self, "ctx_engine_id", None) is None else self.ctx_engine_id)
         boots, tm = ov.get("boots", self.boots), ov.get("time", self.time)
         uk = ov.get("auth_user", self.users.get(usm_in["user"]))
         in_flags = m["flags"] if m else 0
